@@ -259,8 +259,39 @@ def rule_groupkey(ctx, py):
     ctx.floor(R, 2)
 
 
+def rule_regen(ctx, py):
+    """C13.REGEN -- regenerating the defaults reflects an edit of a species: the system holds the network object it was given
+    (the user's Species objects are the ones it reads), the getter hands out that same object, and the default generators read
+    `self.network` when they are called (nothing about densities or flags is kept from construction)."""
+    R = "C13.REGEN"
+    st_ = py.fn("rdsystem.RDSystem.network.setter")
+    v = [p_ for p_ in pyfe.params(st_) if p_ != "self"][0]
+    stores = [n for n in ast.walk(st_) if isinstance(n, ast.Assign) and pyfe.src(n.targets[0]).startswith("self._")]
+    ctx.need(stores, R, "network setter: no store into self")
+    for n in stores:
+        ctx.check(pyfe.src(n.value) == v, R, n, st_._qual, pyfe.src(n), "the network object itself is kept", "the system keeps `%s` "
+                  "instead of the network it was given: a later edit of a species (density, chemostat flag) made through the "
+                  "user's objects is not seen when the default state / chemostat map are regenerated" % pyfe.src(n.value)[:40])
+    attr = pyfe.src(stores[0].targets[0])
+    gt = py.fn("rdsystem.RDSystem.network")
+    rets = [r for r in ast.walk(gt) if isinstance(r, ast.Return) and r.value is not None]
+    ctx.check(len(rets) == 1 and pyfe.src(rets[0].value) == attr, R, rets[0] if rets else gt, gt._qual,
+              "return %s" % (pyfe.src(rets[0].value) if rets else "?"), "the getter hands out the held network itself",
+              "`system.network` is not the network the system reads: editing `system.network.species[i]` changes a copy")
+    for q in ("rdsystem.RDSystem.set_default_state", "rdsystem.RDSystem.set_default_chemostats"):
+        f = py.fn(q)
+        gens = [c for c in pyfe.calls_in(f) if pyfe.call_name(c).startswith("generate_system_")]
+        ctx.need(len(gens) == 1, R, "%s: generator call not found" % q)
+        a0 = gens[0].args[0] if gens[0].args else next((k.value for k in gens[0].keywords if k.arg == "network"), None)
+        ctx.check(a0 is not None and pyfe.src(a0) in ("self.network", attr), R, gens[0], q, pyfe.src(gens[0])[:70],
+                  "generated from the system's current network", "the defaults are not generated from the network the system "
+                  "holds now")
+    ctx.floor(R, 4)
+
+
 def run(ctx):
     py = ctx.py
+    rule_regen(ctx, py)
     rule_index(ctx, py)
     rule_concat(ctx, py)
     rule_tag(ctx, py)
